@@ -512,6 +512,44 @@ func ruleFuncReg(p *Prog, r *Result) {
 			}
 		})
 	}
+	// ... with the declared count in every branch: a comparison of the call's argument count with a number written
+	// into the check (`variadic: at least one`) is right for the functions it was written for and wrong for the one
+	// that declares another minimum (join needs two)
+	constCmp := ""
+	for _, f := range fs {
+		allInstrs(f, func(in ssa.Instruction) {
+			b, ok := in.(*ssa.BinOp)
+			if !ok {
+				return
+			}
+			switch b.Op {
+			case token.EQL, token.NEQ, token.LSS, token.LEQ, token.GTR, token.GEQ:
+			default:
+				return
+			}
+			isLenArgs := func(v ssa.Value) bool {
+				c, ok := v.(*ssa.Call)
+				if !ok {
+					return false
+				}
+				bi, ok := c.Call.Value.(*ssa.Builtin)
+				if !ok || bi.Name() != "len" {
+					return false
+				}
+				return p.derivesFromField(c.Call.Args[0], "FunctionCallExpr", "Args", traceOpts{ThroughArgs: true})
+			}
+			for _, pr := range [][2]ssa.Value{{b.X, b.Y}, {b.Y, b.X}} {
+				if isLenArgs(pr[0]) {
+					if k, isK := constInt(pr[1]); isK && k >= 0 {
+						constCmp = p.InstrPos(in)
+					}
+				}
+			}
+		})
+	}
+	if okN {
+		r.add(constCmp == "", "arity-declared", firstNonEmpty(constCmp, p.Pos(fn.Pos())), firstNonEmpty(map[bool]string{true: "the argument count is compared with a number written into the check at " + constCmp + " instead of the count the function declares"}[constCmp != ""], "the argument count is only ever compared with the declared NumArgs"))
+	}
 	r.add(okN, "arity-compare", firstNonEmpty(posN, p.Pos(fn.Pos())), "FunctionCallExpr.Check must compare len(Args) with the registered NumArgs (wrong argument count accepted at plan time otherwise)")
 	r.note("functions_examined", p.fnames(fs))
 }
